@@ -3100,7 +3100,7 @@ where
                         self.pid_man.release_id(packet_id);
                         events.push(GenericEvent::NotifyPacketIdReleased(packet_id));
                     }
-                    if self.publish_send_max.is_some() {
+                    if self.publish_send_max.is_some() && self.publish_send_count > 0 {
                         self.publish_send_count -= 1;
                     }
                     events.extend(self.refresh_pingreq_recv());
@@ -3174,7 +3174,7 @@ where
                             self.pid_man.release_id(packet_id);
                             events.push(GenericEvent::NotifyPacketIdReleased(packet_id));
                         }
-                        if self.publish_send_max.is_some() {
+                        if self.publish_send_max.is_some() && self.publish_send_count > 0 {
                             self.publish_send_count -= 1;
                         }
                     }
@@ -3304,7 +3304,7 @@ where
                         self.pid_man.release_id(packet_id);
                         events.push(GenericEvent::NotifyPacketIdReleased(packet_id));
                     }
-                    if self.publish_send_max.is_some() {
+                    if self.publish_send_max.is_some() && self.publish_send_count > 0 {
                         self.publish_send_count -= 1;
                     }
                     events.extend(self.refresh_pingreq_recv());
